@@ -555,9 +555,13 @@ class CallMixin:
             sub.recv = ClassV(rc) if rc is not None else recv
         if self.is_generator(func):
             sub.yields = []
-        self.exec_body(func.node.body, sub)
+        status = self.exec_body(func.node.body, sub)
         if sub.yields is not None:
             return ListV(sub.yields, sub.yields_complete)
+        if status == 'raise' and not sub.returns and not func.abstract:
+            # a helper that raises on every path (``cls._raise_decoder_error(parsable, e)``): the call does not return, the statement
+            # that holds it ends the path like the ``raise`` it stands for
+            raise Raised()
         if getattr(sub, 'returned_nonempty', None) and len(sub.returns) == 1:
             # a list the callee knows to hold an element at its only return is known to hold one in the caller
             fr.nonempty |= sub.returned_nonempty
